@@ -70,6 +70,20 @@ theorem adapter_depth_matches_container_rle_htj2k (fi : FI) (hs : fi.InScope) :
 example : (⟨16, 12, 16, 12, 1, 0⟩ : FI).InScope ∧ (⟨16, 12, 16, 8, 1, 0⟩ : FI).InScope ∧
     Codec.usesBitsStored .sv1 = true := by decide
 
+/-- (guard added after the hunters' finding `adapter-zero-bit-depth-accepted`) the two adapters that do not hand
+    BitsStored itself down — baseline always declares 8 bit, extended 8 or 12 — refuse a FrameInfo that declares
+    0-bit samples: whenever they go on to the low-level encoder, 1 ≤ BitsStored ≤ the depth they declare.
+    (The other BitsStored-passing adapters hand 0 down and the GENERATED prefixes reject it: depth ≥ 1 resp. ≥ 2.) -/
+theorem adapter_zero_depth_rejected (k : Codec) (hk : k = .baseline ∨ k = .extended) (fi : FI) (e : Int) (p : Passed)
+    (h : passDown k fi e = some p) : 1 ≤ fi.BS ∧ (fi.BS : Int) ≤ p.depth := by
+  unfold passDown at h
+  rcases hk with hk | hk <;> subst hk <;> simp only [] at h <;> (repeat' split at h)
+  all_goals first | (cases h; done) | (cases h; simp; omega)
+
+/-- the hunter's witness (BitsAllocated = BitsStored = 0, 4×4) is refused whatever the parameter depth; 1-bit data still passes -/
+example : passDown .baseline ⟨4, 4, 0, 0, 1, 0⟩ = none ∧ passDown .extended ⟨4, 4, 0, 0, 1, 0⟩ 12 = none ∧
+    passDown .extended ⟨4, 4, 0, 0, 1, 0⟩ 8 = none ∧ (passDown .baseline ⟨4, 4, 8, 1, 1, 0⟩).isSome := by decide
+
 /-! ## 2. The frame loop -/
 
 /-- success: every frame was non-empty and encoded, and the destination holds exactly the image of
